@@ -146,7 +146,7 @@ def handle (entry : String) (j : Json) : Except String Json := do
           let r := it.runS n
           Json.mkObj [("kind", Json.str (if isS then "stream" else "iter")),
                       ("items", arr termJson r.1),
-                      ("lost", arr termJson (it.runL n)),
+                      ("trace", arr (arr termJson) (it.runT n)),
                       ("unread0", unreadJson it.unread),
                       ("unread", unreadJson r.2.unread)]
         | .ok (.scalar c) => Json.mkObj [("kind", Json.str "scalar"), ("value", termJson c)]
